@@ -1,10 +1,12 @@
 use crate::runner::Monitor;
 
+pub mod c10;
 pub mod c14;
 pub mod c16;
 
 pub fn by_id(id: &str) -> Option<Box<dyn Monitor>> {
     Some(match id {
+        "C10" => Box::new(c10::C10::new()),
         "C14" => Box::new(c14::C14),
         "C16" => Box::new(c16::C16),
         _ => return None,
